@@ -103,6 +103,10 @@ def model_perms(tr):
 
 def case_term(cid, tr):
     ps = model_perms(tr)
+    unk = tr["n"] + 7                       # a row that is no row of the initial store: an index outside the store
+    fix = lambda p: [x if x >= 0 else unk for x in p]
+    ps = [fix(p) for p in ps]
+    tr = dict(tr, batches=[fix(b) for b in tr["batches"]])
     return (f"mkcase {cnat(cid)} {cnat(KINDS.index(tr['kind']))} {cnat(tr['n'])} {cz(tr['b'])} "
             f"{clist(ps, lambda p: clist(p, cnat))} {clist(tr['batches'], lambda p: clist(p, cnat))}")
 
